@@ -8,7 +8,9 @@ import (
 	"errors"
 	"fmt"
 	"math/rand/v2"
+	"runtime"
 	"sync"
+	"sync/atomic"
 	"testing"
 	"time"
 
@@ -65,6 +67,7 @@ func (r *recLimiter) String() string { return "recLimiter(" + r.name + ")" }
 
 var outcomes = []string{"success", "ignore", "dropped"}
 var respTypes = []gclGrpc.ResponseType{gclGrpc.ResponseTypeSuccess, gclGrpc.ResponseTypeIgnore, gclGrpc.ResponseTypeDropped}
+
 // every non-OK status code of the gRPC specification (a classifier may choose any of them)
 var codeChoices = []codes.Code{codes.ResourceExhausted, codes.Unavailable, codes.Aborted, codes.DeadlineExceeded, codes.PermissionDenied,
 	codes.Canceled, codes.Unknown, codes.InvalidArgument, codes.NotFound, codes.AlreadyExists, codes.FailedPrecondition, codes.OutOfRange,
@@ -627,6 +630,66 @@ func streamCase(idx int64, r *rand.Rand) {
 	}
 }
 
+// blockingStream is a transport whose RecvMsg parks until released (operations in flight).
+type blockingStream struct {
+	golangGrpc.ServerStream
+	inRecv  atomic.Int64
+	release chan struct{}
+	sends   atomic.Int64
+}
+
+func (b *blockingStream) Context() context.Context { return context.Background() }
+func (b *blockingStream) RecvMsg(m interface{}) error {
+	b.inRecv.Add(1)
+	<-b.release
+	return nil
+}
+func (b *blockingStream) SendMsg(m interface{}) error { b.sends.Add(1); return nil }
+
+// defaultDirectionsCase: a stream interceptor with the default limiters (nothing configured).  Receive operations
+// acquire from the receive limiter and send operations from the send limiter: with as many receives parked in the
+// transport as the default limiter admits (documented initial limit 20), a send is still admitted and runs.
+func defaultDirectionsCase(idx int64, r *rand.Rand) {
+	var opts []gclGrpc.StreamInterceptorOption
+	if r.IntN(2) == 0 {
+		opts = append(opts, gclGrpc.WithStreamSendName("s"), gclGrpc.WithStreamRecvName("r"))
+	}
+	parkSends := r.IntN(2) == 0 // symmetric variant: park sends, then receive
+	_ = parkSends
+	bs := &blockingStream{release: make(chan struct{})}
+	ic := gclGrpc.StreamServerInterceptor(opts...)
+	var sendErr error
+	granted := 0
+	_ = ic("srv", bs, &golangGrpc.StreamServerInfo{FullMethod: "/svc/D"}, func(srv interface{}, ss golangGrpc.ServerStream) error {
+		var wg sync.WaitGroup
+		errs := make([]error, 20)
+		for i := 0; i < 20; i++ {
+			wg.Add(1)
+			go func(i int) { defer wg.Done(); errs[i] = ss.RecvMsg("m") }(i)
+		}
+		// wait (bounded) until every receive is either parked in the transport or has been refused
+		for tries := 0; tries < 200000 && bs.inRecv.Load() < 20; tries++ {
+			runtime.Gosched()
+		}
+		granted = int(bs.inRecv.Load())
+		sendErr = ss.SendMsg("m")
+		close(bs.release)
+		wg.Wait()
+		return nil
+	})
+	rt.Count("default_direction_cases", 1)
+	if granted < 20 {
+		rt.Inconclusive("C14 default-directions: fewer than 20 receives reached the transport")
+		return
+	}
+	if sendErr != nil || bs.sends.Load() != 1 {
+		rt.Violation("C14/stream-send/send-gated-by-the-receive-operations-in-flight", idx, rt.J{"receives_parked_in_the_transport": granted, "send_error": fmt.Sprint(sendErr), "transport_sends": bs.sends.Load(),
+			"meaning": "send operations acquire from the send limiter; 20 receives in flight use up the receive limiter's default limit, not the send limiter's"})
+		return
+	}
+	rt.Distinct(fmt.Sprintf("defdir|%d", len(opts)))
+}
+
 // sharedCase: one interceptor shared by 8 goroutines over a real DefaultLimiter; in-flight must return to 0.
 func sharedCase(idx int64, r *rand.Rand) {
 	st := strategy.NewSimpleStrategy(3)
@@ -634,10 +697,15 @@ func sharedCase(idx int64, r *rand.Rand) {
 	if err != nil {
 		panic(err)
 	}
-	seeds := make([]uint64, 8)
+	nG := 8 + r.IntN(57)
+	seeds := make([]uint64, nG)
 	for i := range seeds {
 		seeds[i] = r.Uint64()
 	}
+	// refusals go through the default limit-exceeded classifier (it formats the limiter into its message) while other
+	// calls are being admitted and completed; a call that never returns is classified by the scenario watchdog
+	rt.Scenario("C14/unary-server/shared-interceptor", idx, rt.J{"goroutines": nG})
+	defer rt.ScenarioDone()
 	ic := gclGrpc.UnaryServerInterceptor(gclGrpc.WithLimiter(dl), gclGrpc.WithServerResponseTypeClassifier(
 		func(ctx context.Context, req interface{}, info *golangGrpc.UnaryServerInfo, rsp interface{}, err error) gclGrpc.ResponseType {
 			return respTypes[req.(int)%3]
@@ -645,13 +713,16 @@ func sharedCase(idx int64, r *rand.Rand) {
 	var wg sync.WaitGroup
 	var mu sync.Mutex
 	refused, granted := 0, 0
-	for g := 0; g < 8; g++ {
+	for g := 0; g < nG; g++ {
 		wg.Add(1)
 		go func(g int) {
 			defer wg.Done()
 			lr := rand.New(rand.NewPCG(seeds[g], 1))
 			for i := 0; i < 40; i++ {
 				_, err := ic(context.Background(), lr.IntN(3), &golangGrpc.UnaryServerInfo{FullMethod: "/m"}, func(ctx context.Context, req interface{}) (interface{}, error) {
+					if lr.IntN(2) == 0 {
+						runtime.Gosched()
+					}
 					return nil, nil
 				})
 				mu.Lock()
@@ -680,6 +751,8 @@ func TestCheck(t *testing.T) {
 		switch {
 		case idx%50 == 49:
 			sharedCase(idx, r)
+		case idx%500 == 123:
+			defaultDirectionsCase(idx, r)
 		case idx%2 == 0:
 			unaryCase(idx, r)
 		default:
